@@ -161,6 +161,21 @@ fn exec(c: &Inp) -> Exec {
                 } else { None }
             };
             if c.resid && fact_clean { if let Some(s) = ldl_chk(&F, &Afact) { conj.push(s); } }
+            // order-independent statements about the returned pivots (binding in the binary64 streams)
+            let piv_chk = |F: &QDLDLFactorisation<f64>, nz: &[f64]| -> Vec<String> {
+                let mut v = vec![];
+                if mode != 'F' || c.logical || !all_finite(&F.D) { return v; }
+                let ps: Vec<i64> = F.verif_Dsigns().iter().map(|&x| x as i64).collect();
+                v.push(format!("ofb (pivots_ok {} {} {} {} {} {} {})", c.reg_enable, cfl(c.eps), cfl(c.delta), cfllist(&F.D), czlist(&ps),
+                    F.regularize_count(), F.positive_inertia()));
+                if c.resid && F.regularize_count() > 0 && all_finite(&F.L.nzval) {
+                    let skip: Vec<bool> = F.D.iter().zip(ps.iter()).map(|(d, s)| *d == c.delta * (*s as f64)).collect();
+                    v.push(format!("chk_ldl_skip 8 {} {} {} {} {} {} {} {}", cn(c.n), cnlist(&perm_model), dy_A(nz),
+                        cnlist(&F.L.colptr), cnlist(&F.L.rowval), cdylist(&F.L.nzval), cdylist(&F.D), cblist(&skip)));
+                }
+                v
+            };
+            conj.extend(piv_chk(&F, &Afact));
             for o in c.ops.iter() {
                 if !alive { break; }
                 match o {
@@ -207,7 +222,9 @@ fn exec(c: &Inp) -> Exec {
                             Some(Err(e)) => {
                                 opsout.push(format!("ORefactor (SErr {})", cn(err_code(&e))));
                                 bitwise = matches!(&fresh, Some(Err(e2)) if err_code(e2) == err_code(&e));
-                                alive = false;
+                                // the object stays usable: the script goes on (refactor again, repair, ...);
+                                // the held factors are meaningless until a refactor succeeds
+                                fact_clean = false;
                                 tags.push(format!("refactor-err{}", err_code(&e)));
                             }
                             Some(Ok(())) => {
@@ -221,6 +238,7 @@ fn exec(c: &Inp) -> Exec {
                                 Afact = Acur.clone();
                                 fact_clean = F.regularize_count() == 0;
                                 if c.resid && fact_clean { if let Some(s) = ldl_chk(&F, &Afact) { conj.push(s); } }
+                                conj.extend(piv_chk(&F, &Afact));
                                 tags.push("refactor".into());
                             }
                         }
@@ -440,7 +458,7 @@ fn gen_kkt(rng: &mut Rng, n1: usize, n2: usize) -> Inp {
     let perm = if rng.chance(1, 2) { Some((0..n).collect()) } else { None };
     let b: Vec<f64> = (0..n).map(|_| 2.0 * rng.unit() - 1.0).collect();
     Inp { stream: "kkt".into(), mode: 'F', m: n, n, colptr: cp, rowval: rv, nzval: nz, perm, logical: false, dsigns: Some(ds),
-          reg_enable: true, eps: 1e-12, delta: 1e-7, ops: vec![OpIn::Solve(b)], resid: false }
+          reg_enable: true, eps: 1e-12, delta: 1e-7, ops: vec![OpIn::Solve(b)], resid: true }
 }
 
 
@@ -522,11 +540,15 @@ fn exec_driver(inp: &Value) -> (String, Vec<String>) {
             ok = d.kkt_update();
         }
         let snap = d.snapshot();
+        let fac = d.kkt.verif_qdldl_factors();
+        // K restored: repeating the same update must reproduce the same KKT copy bit for bit
+        let restored = { let ok2 = d.kkt_update(); let s2 = d.snapshot(); ok2 == ok && same_bits(&s2.K.nzval, &snap.K.nzval) && s2.eps.to_bits() == snap.eps.to_bits() };
         let rhsx = f64_vec(&inp["rhsx"]); let rhsz = f64_vec(&inp["rhsz"]);
         let sol = if ok { Some(vh12::driven_solve(&mut d, &rhsx, &rhsz)) } else { None };
-        (ok, snap, sol)
+        let vecs = vh12::ir_take_vectors();
+        (ok, snap, sol, fac, restored, vecs)
     });
-    let (ok, snap, sol) = match r { Some(x) => x, None => { tags.push("panic".into()); return ("1%N".into(), tags); } };
+    let (ok, snap, sol, fac, restored, vecs) = match r { Some(x) => x, None => { tags.push("panic".into()); return ("1%N".into(), tags); } };
     let K = &snap.K;
     let perm = guarded(|| clarabel::qdldl::verif_amd_ordering(K, 1.5).0).unwrap_or((0..K.n).collect());
     let st = &inp["settings"];
@@ -560,12 +582,29 @@ fn exec_driver(inp: &Value) -> (String, Vec<String>) {
     if !ok { tags.push("refactor-failed".into()); }
     if !solve_ok && ok { tags.push("solve-nonfinite".into()); }
     let out = format!("(mkDO {} {} {} {} {} {} [{}])", ok, cfl(snap.eps), solve_ok, cfllist(&x), cfl(norm0), has_ir, steps.join("; "));
-    let coq = format!("(c_driver (spmF {} {} {} {} {}) {} {} {} {} {} {} {} {} {} {} {} {} {} {} {} {})",
-        cn(K.m), cn(K.n), cnlist(&K.colptr), cnlist(&K.rowval), cfllist(&K.nzval),
+    // ---- level B data: shifted values held by the backend, its factors, recorded candidates and norms
+    let ks: Vec<f64> = match &snap.ldl_copy { Some((vals, map)) => (0..K.nzval.len()).map(|i| vals[map[i]]).collect(), None => K.nzval.clone() };
+    let (lp, li, lx, dg, _fperm, psigns, regc, pos) = fac.clone().unwrap_or((vec![0; K.n + 1], vec![], vec![], vec![0.0; K.n], vec![], vec![1; K.n], 0, 0));
+    let fin = |v: &[f64]| v.iter().all(|x| x.is_finite());
+    let facs_ok = fin(&lx) && fin(&dg) && fin(&ks) && fac.is_some();
+    let cands: Vec<Vec<f64>> = vecs.iter().map(|(_, v)| v.clone()).collect();
+    let mut norms: Vec<f64> = vec![norm0];
+    if let Some((_, _, _, ev)) = &sol { for e in ev.iter() { if e.0 == 1 { norms.push(e.2); } } }
+    let pairs: Vec<(Vec<f64>, f64)> = cands.iter().cloned().zip(norms.iter().cloned()).filter(|(c, nr)| fin(c) && nr.is_finite()).collect();
+    let normb = match &sol { Some((_, _, _, ev)) => ev.iter().find(|e| e.0 == 0).map(|e| e.1).unwrap_or(0.0), None => 0.0 };
+    let strict = inp["strict"].as_bool().unwrap_or(false);
+    let sem = format!("(mkDS2 {} {} {} {} {} {} {} {} {} {} {} {} {} {} {} {} {})",
+        cfllist(&ks), if facs_ok { cdylist(&ks) } else { "[]".into() }, if fin(&K.nzval) { cdylist(&K.nzval) } else { "[]".into() },
+        cnlist(&lp), cnlist(&li), if facs_ok { cdylist(&lx) } else { "[]".into() }, if facs_ok { cdylist(&dg) } else { "[]".into() }, cfllist(&dg),
+        czlist(&psigns.iter().map(|&x| x as i64).collect::<Vec<_>>()), cn(regc), cn(pos),
+        if fin(&b) { cdylist(&b) } else { "[]".into() },
+        clist(&cands, |c| cfllist(c)), clist(&pairs, |p| cdylist(&p.0)), clist(&pairs, |p| cdy(p.1)), cfl(normb), restored && facs_ok);
+    let coq = format!("(c_driver2 {} (spmF {} {} {} {} {}) {} {} {} {} {} {} {} {} {} {} {} {} {} {} {} {} {})",
+        strict, cn(K.m), cn(K.n), cnlist(&K.colptr), cnlist(&K.rowval), cfllist(&K.nzval),
         czlist(&snap.dsigns.iter().map(|&x| x as i64).collect::<Vec<_>>()), cnlist(&snap.maps.diag_full), cnlist(&perm),
         st["dyn_model"].as_bool().unwrap(), fl("dyn_eps"), fl("dyn_delta"),
         st["static_enable"].as_bool().unwrap(), fl("rconst"), fl("rprop"),
-        cfllist(&b), st["ir_enable"].as_bool().unwrap(), fl("reltol"), fl("abstol"), fl("stopratio"), cn(st["maxiter"].as_u64().unwrap() as usize), out);
+        cfllist(&b), st["ir_enable"].as_bool().unwrap(), fl("reltol"), fl("abstol"), fl("stopratio"), cn(st["maxiter"].as_u64().unwrap() as usize), out, sem);
     (coq, tags)
 }
 
@@ -606,12 +645,12 @@ fn gen_driver(sink: &mut CaseSink, st: &mut BTreeMap<String, usize>, rng: &mut R
         let P = CscMatrix { m: 1, n: 1, colptr: vec![0, 1], rowval: vec![0], nzval: vec![p0] };
         let A = CscMatrix { m: 1, n: 1, colptr: vec![0, 1], rowval: vec![0], nzval: vec![0.0] };
         let cones = vec![SupportedConeT::NonnegativeConeT(1)];
-        let v = json!({"P": csc_json(&P), "A": csc_json(&A), "cones": cones_json(&cones), "updates": [{"s": [], "z": [], "mu": 1.0}], "rhsx": [bx], "rhsz": [0.0],
+        let v = json!({"P": csc_json(&P), "A": csc_json(&A), "cones": cones_json(&cones), "updates": [{"s": [], "z": [], "mu": 1.0}], "rhsx": [bx], "rhsz": [0.0], "strict": true,
             "settings": {"method": "qdldl", "static_enable": true, "rconst": e0, "rprop": 0.0, "dyn_enable": true, "dyn_model": true,
                          "dyn_eps": 1e-13, "dyn_delta": 2e-7, "ir_enable": true, "reltol": reltol, "abstol": abstol, "maxiter": maxiter, "stopratio": stopratio}});
         emitv(sink, st, "driver", v);
     }
-    let nd = if thorough { 600 } else { 140 };
+    let nd = if thorough { 600 } else { 120 };
     for t in 0..nd {
         let n = rng.range(1, 7) as usize; let m = rng.range(1, 8) as usize;
         let (P, A, cones) = drv_problem(rng, n, m, t % 5 == 4);
@@ -695,6 +734,58 @@ fn generate(sink: &mut CaseSink, seed: u64, thorough: bool) -> BTreeMap<String, 
         let c = gen_exact(&mut rng, n, "exact");
         emit(sink, &mut st, &c);
     }
+    // ---- operation histories on ONE object with FAILING refactors (regularisation off): a pivot is
+    //      driven to exactly zero by offset_values / update_values; refactor must fail, fail again when
+    //      nothing changed, and succeed (bit-identical to a fresh factorisation) once repaired
+    {
+        let mut made = 0;
+        let want = if thorough { 200 } else { 50 };
+        let mut tries = 0;
+        while made < want && tries < 50 * want {
+            tries += 1;
+            let n = rng.range(1, 9) as usize;
+            let mut c = gen_exact(&mut rng, n, "history-fail");
+            if c.reg_enable || c.ops.is_empty() { continue; }
+            let A = CscMatrix { m: c.m, n: c.n, colptr: c.colptr.clone(), rowval: c.rowval.clone(), nzval: c.nzval.clone() };
+            let opts = QDLDLSettings::<f64> { amd_dense_scale: 1.0, perm: c.perm.clone(), logical: false, Dsigns: c.dsigns.clone(),
+                regularize_enable: false, regularize_eps: c.eps, regularize_delta: c.delta };
+            let F = match guarded(|| QDLDLFactorisation::<f64>::new(&A, Some(opts))) { Some(Ok(f)) => f, _ => continue };
+            let k = rng.below(n);                       // the pivot (in elimination order) to be zeroed
+            let j = F.perm[k];                          // its variable
+            let idx = c.colptr[j + 1] - 1;              // the diagonal entry is stored last in its column
+            if c.rowval[idx] != j { continue; }
+            let d = F.D[k];
+            if d == 0.0 || !d.is_finite() { continue; }
+            let b0 = match &c.ops[0] { OpIn::Solve(b) => b.clone(), _ => vec![1.0; n] };
+            let sg: i8 = if d > 0.0 { 1 } else { -1 };
+            let mut ops = vec![OpIn::Solve(b0.clone())];
+            // break it
+            match made % 3 {
+                0 => ops.push(OpIn::Offset(vec![idx], d.abs(), vec![-sg])),
+                1 => ops.push(OpIn::Update(vec![idx], vec![c.nzval[idx] - d])),
+                _ => { ops.push(OpIn::Offset(vec![idx], d.abs() * 0.5, vec![-sg])); ops.push(OpIn::Offset(vec![idx], d.abs() * 0.5, vec![-sg])); }
+            }
+            ops.push(OpIn::Refactor);                   // Err(ZeroPivot)
+            if made % 2 == 0 { ops.push(OpIn::Refactor); } // nothing changed: must fail again
+            ops.push(OpIn::Solve(b0.clone()));          // unspecified after a failed refactor (not compared)
+            if made % 5 == 4 { ops.push(OpIn::Scale(vec![idx], 1.0)); ops.push(OpIn::Refactor); } // a value operation that changes nothing: still a zero pivot
+            // repair it
+            match made % 4 {
+                0 | 1 => ops.push(OpIn::Update(vec![idx], vec![c.nzval[idx]])),
+                2 => { let cur = if made % 3 == 1 { c.nzval[idx] - d } else { c.nzval[idx] - d }; ops.push(OpIn::Offset(vec![idx], (c.nzval[idx] - cur).abs(), vec![sg])); }
+                _ => ops.push(OpIn::Update((0..c.nzval.len()).collect(), c.nzval.clone())),
+            }
+            if made % 5 == 4 { ops.push(OpIn::Update(vec![idx], vec![c.nzval[idx]])); }
+            ops.push(OpIn::Refactor);                   // Ok, equal to a fresh factorisation
+            ops.push(OpIn::Solve(b0.clone()));
+            ops.push(OpIn::Refactor);                   // nothing changed: same factors again
+            ops.push(OpIn::Solve(b0));
+            c.ops = ops;
+            if made % 2 == 1 { c.mode = 'F'; c.resid = true; }
+            emit(sink, &mut st, &c);
+            made += 1;
+        }
+    }
     // logical factorisations (structure only) and what they refuse to do
     for t in 0..(if thorough { 60 } else { 20 }) {
         let mut c = gen_exact(&mut rng, 2 + t % 7, "logical");
@@ -734,9 +825,9 @@ fn generate(sink: &mut CaseSink, seed: u64, thorough: bool) -> BTreeMap<String, 
         }
     }
     // ---- general floats with histories
-    let nfl = if thorough { 1200 } else { 220 };
+    let nfl = if thorough { 1200 } else { 190 };
     for t in 0..nfl {
-        let n = if t % 8 == 0 { rng.range(15, if thorough { 32 } else { 26 }) as usize } else { rng.range(1, 12) as usize };
+        let n = if t % 8 == 0 { rng.range(13, if thorough { 32 } else { 20 }) as usize } else { rng.range(1, 12) as usize };
         let c = gen_float(&mut rng, n, "float");
         emit(sink, &mut st, &c);
     }
